@@ -11,7 +11,7 @@ give a dict-like API to a synchronized data structure.
 from collections.abc import Mapping, MutableMapping
 
 from ..utils import AbstractTypeResolver
-from .synced_collection import SyncedCollection, _sc_resolver
+from .synced_collection import SyncedCollection, _detach_synced, _sc_resolver
 
 # Identifies mappings, which are the base type for this class.
 _mapping_resolver = AbstractTypeResolver(
@@ -203,6 +203,8 @@ class SyncedDict(SyncedCollection, MutableMapping):
 
         """
         if _mapping_resolver.get_type(data) == "MAPPING":
+            # The new values must not change while they are merged in.
+            data = _detach_synced(data)
             if self._root is not None:
                 # A nested collection must be reset within the backend's
                 # current content, not within a possibly stale copy of it.
@@ -267,6 +269,9 @@ class SyncedDict(SyncedCollection, MutableMapping):
                 other = dict(other)
         else:
             other = {}
+        # The new values must not change while they are merged in.
+        other = _detach_synced(other)
+        kwargs = _detach_synced(kwargs)
 
         with self._load_and_save:
             # The order here is important to ensure that the promised sequence of
